@@ -48,7 +48,7 @@ func (eng) CoqRequire(mode string) string {
 func (eng) CoqCaseType(mode string) string { return "Check_state.case" }
 func (eng) CoqRun(mode string) string      { return "Check_state.run" }
 func (eng) Rule(mode string) string {
-	return "A case is a history of ops (keyed event with the key results the scripted handler returns for it | batch-timer flush | wait for DKV background tasks | checkpoint barrier | redeploy from the latest checkpoint) against one real Operator (key-group count 1/2/7/256/65535, batch size 1..5, DKV memtable 96..2048 bytes, table target 128..4096 bytes, L0 trigger 2, smallest level 256..2048 bytes). Subject keys come from adversarial families (empty, nested prefixes, 0x00 / 0xff runs, keys that contain another key's encoded suffix, long), namespaces include empty / prefixes of each other / length-vs-lexicographic order inversions / 255 bytes, entry keys empty / prefixes, values empty..400 bytes (2.5KB thorough). About a fifth of the events of cases without redeploy carry a storage read fault (ReadAt of table files fails from a generated offset / from the n-th read on) armed while the state for the batch they complete is read: the batch must either fail with the error (no handler call, nothing applied) or hand over the complete state. Non-trivial: the handler was called at least twice, at least one delete or overwrite of a live entry happened and some later call was handed state for that key; distinct by hash of the case."
+	return "A case is a history of ops (keyed event with the key results the scripted handler returns for it | batch-timer flush | wait for DKV background tasks | hold / release the memtable flushes | checkpoint barrier | redeploy from a restorable checkpoint) against one real Operator (key-group count 1/2/7/256/65535, batch size 1..5, DKV memtable 96..2048 bytes, table target 128..4096 bytes, L0 trigger 2, smallest level 256..2048 bytes). Subject keys come from adversarial families (empty, nested prefixes, 0x00 / 0xff runs, keys that contain another key's encoded suffix, long), namespaces include empty / prefixes of each other / length-vs-lexicographic order inversions / 255 bytes, entry keys empty / prefixes, values empty..400 bytes (2.5KB thorough). Every fourth case redeploys, in turn: at random points from the latest or the previous checkpoint | from a second checkpoint taken right after one that was taken while a memtable flush was parked (hook points dkv.flush.begin/swap gated) | from an older retained checkpoint after further flushes and a further checkpoint. About a fifth of the events of cases without redeploy carry a storage read fault (ReadAt of table files fails from a generated offset / from the n-th read on) armed while the state for the batch they complete is read: the batch must either fail with the error (no handler call, nothing applied) or hand over the complete state. Non-trivial: the handler was called at least twice, at least one delete or overwrite of a live entry happened and some later call was handed state for that key; distinct by hash of the case."
 }
 
 // ---------- case format ----------
